@@ -394,6 +394,8 @@ def c05 (fn : String) (a : List String) : Option String := do
   match fn, a with
   | "c05.typeinfos", [_, _, _] => some "ok"          -- the model: disciplined threads always finish (C05_deadlock_free)
   | "o.c05.typeinfos", [_, _, _, obs] => some (verdict (obs == "ok"))
+  | "c17.sepcell", _ => some "returned"
+  | "o.c17.sepcell", args => some (verdict (args.getLast? == some "returned"))
   | "c05.docs", _ => some "returned"
   | "o.c05.docs", args => some (verdict (args.getLast? == some "returned"))
   | "c05.gen", _ => some "returned"
@@ -513,6 +515,15 @@ def c12seq (fn : String) (a : List String) : Option String := do
   | "c12.seq", [_layout, start, keys] =>
     let ks ← (keys.splitOn ".").mapM decNat?
     some (if seqOK (← decNat? start) ks then "ok" else "err 2003")
+  | "c12.keyrange", [_layout, lo, hi, keys] =>
+    let a ← decNat? lo; let b ← decNat? hi
+    let ks ← (keys.splitOn ".").mapM decNat?
+    some (if ks.all (fun k => a ≤ k && k ≤ b) then "ok" else "err 2004")
+  | "o.c12.keyrange", [_layout, lo, hi, keys, obs] =>
+    let a ← decNat? lo; let b ← decNat? hi
+    let ks ← (keys.splitOn ".").mapM decNat?
+    some (if ks.all (fun k => a ≤ k && k ≤ b) then (if obs == "ok" then "holds" else "FAILS")
+          else (if obs == "err 2004" then "holds" else "FAILS"))
   | "c12.redecl", [lo1, hi1, lo2, hi2, v1, v2] =>
     let a ← decNat? lo1; let b ← decNat? hi1; let c ← decNat? lo2; let d ← decNat? hi2
     let x ← decNat? v1; let y ← decNat? v2
@@ -525,6 +536,14 @@ def c12seq (fn : String) (a : List String) : Option String := do
     some (if obs == "protoerr" then (if a != c || b != d then "holds" else "FAILS")
           else if a ≤ x && x ≤ b && c ≤ y && y ≤ d then (if obs == "ok" then "holds" else "FAILS")
           else (if obs == "err 2004" then "holds" else "FAILS"))
+  | "c13.emap", [re, rm, me, mm, oe, om] =>
+    let e := if re == "1" && !oe.isEmpty then ydocMerged "" oe else ydocMerged me oe
+    let m := if rm == "1" && !om.isEmpty then ydocMerged "" om else ydocMerged mm om
+    some s!"dry=e:{e};m:{m} load=e:{e};m:{m}"
+  | "o.c13.emap", [re, rm, me, mm, oe, om, obs] =>
+    let e := if re == "1" && !oe.isEmpty then ydocMerged "" oe else ydocMerged me oe
+    let m := if rm == "1" && !om.isEmpty then ydocMerged "" om else ydocMerged mm om
+    some (if obs == s!"dry=e:{e};m:{m} load=e:{e};m:{m}" then "holds" else "FAILS")
   | "c13.ydoc", [main, over] => let m := ydocMerged main over; some s!"dry={m} load={m}"
   | "o.c13.ydoc", [main, over, obs] => let m := ydocMerged main over; some (if obs == s!"dry={m} load={m}" then "holds" else "FAILS")
   | "c11.docscatter", [_kind, names] => some (docScatterFiles names)
@@ -585,7 +604,7 @@ def dispatch (line : String) : String :=
     let r :=
       if fn.startsWith "imp." || fn.startsWith "o.imp." then imp fn args
       else if fn.startsWith "c18.related" || fn.startsWith "o.c18.related" then c18rel fn args
-      else if fn.startsWith "c12.seq" || fn.startsWith "o.c12.seq" || fn.startsWith "c12.redecl" || fn.startsWith "o.c12.redecl" || fn.startsWith "c11.docscatter" || fn.startsWith "o.c11.docscatter" || fn.startsWith "c13.ydoc" || fn.startsWith "o.c13.ydoc" then c12seq fn args
+      else if fn.startsWith "c12.seq" || fn.startsWith "o.c12.seq" || fn.startsWith "c12.redecl" || fn.startsWith "o.c12.redecl" || fn.startsWith "c12.keyrange" || fn.startsWith "o.c12.keyrange" || fn.startsWith "c11.docscatter" || fn.startsWith "o.c11.docscatter" || fn.startsWith "c13.ydoc" || fn.startsWith "o.c13.ydoc" || fn.startsWith "c13.emap" || fn.startsWith "o.c13.emap" then c12seq fn args
       else if fn.startsWith "c13.tbl" || fn.startsWith "o.c13.tbl" then c13tbl fn args
       else if fn.startsWith "c14." || fn.startsWith "o.c14." then c14 fn args
       else if fn.startsWith "c07.corrupt" || fn.startsWith "o.c07.corrupt" || fn.startsWith "w.c07." || fn.startsWith "c07.skip" || fn.startsWith "o.c07.skip" then tp fn args
@@ -599,7 +618,7 @@ def dispatch (line : String) : String :=
       else if fn.startsWith "c12.contig" || fn.startsWith "o.c12.contig" then tp fn args
       else if fn.startsWith "c12." || fn.startsWith "o.c12." then c12 fn args
       else if fn.startsWith "c20." || fn.startsWith "o.c20." then c20 fn args
-      else if fn.startsWith "c05." || fn.startsWith "o.c05." then c05 fn args
+      else if fn.startsWith "c05." || fn.startsWith "o.c05." || fn.startsWith "c17.sepcell" || fn.startsWith "o.c17.sepcell" then c05 fn args
       else if fn.startsWith "c11." || fn.startsWith "o.c11." then c11 fn args
       else if fn.startsWith "doc." || fn.startsWith "o.doc." then doc fn args
       else if fn.startsWith "c17." || fn.startsWith "o.c17." || fn.startsWith "pg." || fn.startsWith "o.pg." || fn.startsWith "c10." || fn.startsWith "o.c10." || fn.startsWith "c09." || fn.startsWith "o.c09." || fn.startsWith "c19." || fn.startsWith "o.c19." || fn.startsWith "c02." || fn.startsWith "o.c02." || fn.startsWith "c15." || fn.startsWith "o.c15." || fn.startsWith "c08." || fn.startsWith "o.c08." then pg fn args
